@@ -4,7 +4,6 @@ import (
 	"bytes"
 	"crypto/md5"
 	"encoding/hex"
-	"errors"
 	"fmt"
 	"io"
 	"log"
@@ -14,7 +13,6 @@ import (
 	"sort"
 	"strings"
 	"sync"
-	"syscall"
 
 	"github.com/johannesboyne/gofakes3"
 	"github.com/johannesboyne/gofakes3/internal/s3io"
@@ -151,7 +149,7 @@ func (db *MultiBucketBackend) getBucketWithFilePrefixLocked(bucket string, prefi
 	if err != nil && prefixPath != "" {
 		// The prefix names a directory that does not exist (or a file): no key
 		// can match it, which is an empty listing and not a missing bucket.
-		if stat, serr := db.bucketFs.Stat(filepath.FromSlash(bucketPath)); os.IsNotExist(serr) || errors.Is(serr, syscall.ENOTDIR) || (serr == nil && !stat.IsDir()) {
+		if stat, serr := db.bucketFs.Stat(filepath.FromSlash(bucketPath)); notExist(serr) || (serr == nil && !stat.IsDir()) {
 			if exists, _ := afero.DirExists(db.bucketFs, filepath.FromSlash(bucket)); exists {
 				return gofakes3.NewObjectList(), nil
 			}
